@@ -13,7 +13,7 @@ def sh(cmd, cwd, timeout=1800):
 def build(wt):
     return sh(f'{PY} setup.py build_ext --inplace --force', wt)
 def one(pid):
-    wt=f'/tmp/seed/{pid}'; out=f'{SEEDOUT}/{pid}'; res={}
+    wt=os.environ.get('SEEDWT','/tmp/seed')+f'/{pid}'; out=f'{SEEDOUT}/{pid}'; res={}
     sh('git checkout -- . ', wt)
     for k in (1,2,3):
         diff=f'{out}/change{k}.diff'
